@@ -86,10 +86,22 @@ def sentinels():
                 funcs.append((aname, val))
             elif isinstance(val, type) and val.__module__ == mname:
                 for fname, f in vars(val).items():
+                    if isinstance(f, (list, dict, set)) and not fname.startswith('__'):
+                        snap['classattr:%s.%s.%s' % (mname, aname, fname)] = repr(f)[:2000]
                     f = getattr(f, '__func__', f)
                     if isinstance(f, types.FunctionType):
                         funcs.append(('%s.%s' % (aname, fname), f))
             for fname, f in funcs:
+                for k, d in (getattr(f, '__dict__', None) or {}).items():
+                    if isinstance(d, (list, dict, set)):
+                        snap['funcattr:%s.%s.%s' % (mname, fname, k)] = repr(d)[:2000]
+                for cell in (f.__closure__ or ()):
+                    try:
+                        d = cell.cell_contents
+                    except ValueError:
+                        continue
+                    if isinstance(d, (list, dict, set)):
+                        snap['closure:%s.%s#%x' % (mname, fname, id(cell) & 0xfff)] = repr(d)[:2000]
                 for i, d in enumerate(f.__defaults__ or ()):
                     if isinstance(d, (list, dict, set)):
                         snap['default:%s.%s#%d' % (mname, fname, i)] = repr(d)[:500]
@@ -175,6 +187,10 @@ def make_pool(ctx):
                 doc.recs.insert(i + 1, gen_doc.Rec(faults._FakeNode('ZZZ'), ['X'], list(doc.recs[i].chain)))
                 kinds.append('multi')
         pool.append(('gen:%s:%s' % (e['file'], ','.join(kinds) or 'valid'), doc.text()))
+    # the same data under both interchange versions (the extended character set differs: ^ and ` are 5010 only)
+    if '834_lui_id' in fx and '834_lui_id_5010' in fx:
+        for nm in ('834_lui_id', '834_lui_id_5010'):
+            pool.append(('directed:cross-version:' + nm, fx[nm].replace('NM1*IL*1*DOE*JOHN', 'NM1*IL*1*D`ARCY*JO^HN')))
     # a document with trailing separators + unknown id on the same segment: several segment-level codes at once
     pool.append(('directed:multi-code-segment', fx['simple1'].replace('ST*837*', 'ST*837*') if False else
                  'ISA*00*          *00*          *ZZ*ZZ000          *ZZ*ZZ001          *030828*1128*U*00401*000010121*0*T*:~\nGS*HC*ZZ000*ZZ001*20030828*1128*17*X*004010X098A1~\n'
@@ -247,7 +263,7 @@ def run(ctx):
                     base[k2] = now[k2]      # first sight of a lazily imported module
                     continue
                 if base.get(k2) != now.get(k2):
-                    kind = 'mutable-default' if k2.startswith('default:') else 'module-container'
+                    kind = {'default': 'mutable-default', 'global': 'module-container', 'classattr': 'class-attribute', 'funcattr': 'function-attribute', 'closure': 'closure-cell'}[k2.split(':')[0]]
                     if k2 not in base and kind == 'module-container' and k2.startswith('global:') and False:
                         continue
                     ctx.viol('sentinel:%s:%s' % (kind, k2.split(':', 1)[1]), 'shared mutable state changed while processing documents', {'document': name, 'history': hist[-6:]},
